@@ -14,6 +14,8 @@ the coupling between state and per-group rows (`result_repeatable`), and the tab
 The aggregate half is stated twice: at engine level over `followRun` (`follow_eq_batch_prefix`, with the k-th row that
 WHERE rejects in `follow_rejected_row_changes_nothing`), and over the EXECUTED loops `runFollowAll` / `runBatch`
 (`follow_kth_line_eq_batch_prefix`, `follow_last_shown_is_batch_table`), linked by `follow_run_is_engine_steps`.
+With a JOIN (where `FollowFileExecutor` refuses to run, so the follow side is the line-at-a-time feed `feedLines` of the
+`incr` driver): `follow_join_kth_line_eq_batch_prefix`, at full strength since D61 was repaired (/repo 7277b4c).
 -/
 namespace Sqlgrep.Props.C11
 open Sqlgrep
@@ -277,32 +279,58 @@ theorem follow_last_shown_is_batch_table (O : Oracles) (qy : Query) (q : AggStmt
     ((runFollowAll O qy none lines).printed = [] ∧ ∀ l ∈ lines, ¬ lineShown O qy q l) :=
   follow_exec_last O qy q hq hj hlim joined lines hf hb hex
 
-/-! ### follow mode over a JOIN -/
+/-! ### with or without a JOIN (D61 repaired: one table per line) -/
 
-/-- for an aggregate statement over a JOIN the executed per-line step (default config) sends the rows of the line's join
-partners (`lineEnvs`, which is the nested loop's `rowsOf`: `Props.C05.join_refines_nested_loop`) one by one through
-update + result and concatenates the results -/
+/-- for an aggregate statement the executed per-line step (default config) sends the rows of ALL the line's join partners
+(`lineEnvs`, which is the nested loop's `rowsOf`: `Props.C05.join_refines_nested_loop`; exactly one row without a join)
+through `execute_update`, and then — iff one of them updated — computes ONE table -/
 theorem agg_follow_join_step (O : Oracles) (qy : Query) (q : AggStmt) (idx : JoinIndex) (es : EngineState) (l : Line)
     (hq : qy.stmt = .aggregate q) (hadm : anyResult l.row = true) :
     executeLine O qy idx true es l =
       (lineEnvs qy idx false l).bind (fun envs =>
-        (executeLine.go O q envs es.agg none).bind (fun p => .ok (updateLimit false q.limit { es with agg := p.1 } p.2))) :=
+        (aggEnvs O q envs es.agg false).bind (fun p =>
+          if p.2 then (aggResult O q p.1).bind (fun r => .ok (updateLimit false q.limit { es with agg := r.1 } (some r.2)))
+          else .ok (updateLimit false q.limit { es with agg := p.1 } none))) :=
   executeLine_follow_join O qy q idx es l hq hadm
 
-/-- **follow-mode refinement with joins**: starting from a follow-mode state similar to the batch-mode state after the same
-rows, the refresh for a line with partner rows `envs` is exactly the concatenation (`extendAll`) of the tables a batch run
-would show after each admitted partner row (`tablesAfter`: update only, then the table of `execute_result` at that point),
-and the states stay similar. Hence with at most one admitted partner the refresh IS the batch table over everything fed so
-far (C11 holds); with several partners it is that table preceded by the intermediate ones — finding D61. -/
-theorem follow_join_refresh_is_table_per_partner {O : Oracles} {q : AggStmt} (envs : List (Env × List String))
-    {sf sb sf' sb' : AggState} {S K : List (List Value)} (h : Sim2 q sf sb S) (hS : ∀ k ∈ S, k ∈ K)
-    (hK : ∀ k ∈ groupKeysOf O q (envs.map (·.1)), k ∈ K) (hex : KeysExact K)
-    {acc r : Option RowOut} {ts : List RowOut}
-    (hf : executeLine.go O q envs sf acc = .ok (sf', r)) (hb : tablesAfter O q (envs.map (·.1)) sb = .ok (sb', ts)) :
-    r = extendAll acc ts ∧ ∃ S', Sim2 q sf' sb' S' ∧ ∀ k ∈ S', k ∈ K :=
-  go_tables envs h hS hK hex hf hb
+/-- **one line in both modes, any join index**: from a follow-mode engine state similar to the batch-mode engine state
+(after the same lines), the line's answer under the default configuration either carries a table — the table
+`execute_result` shows on the batch-mode state after the same line, whatever the number of join partners — or it carries
+none and neither aggregation state changed; and the states are similar again -/
+theorem follow_join_line_is_batch_table {O : Oracles} {qy : Query} {q : AggStmt} (hq : qy.stmt = .aggregate q)
+    (hlim : q.limit = none) (idx : JoinIndex) (l : Line) {esf esb esf' esb' : EngineState} {lo lob : LineOut}
+    {S K : List (List Value)} (h : Sim2 q esf.agg esb.agg S) (hS : ∀ k ∈ S, k ∈ K)
+    (hK : ∀ envs, lineEnvs qy idx false l = .ok envs → ∀ k ∈ groupKeysOf O q (envs.map (·.1)), k ∈ K)
+    (hex : KeysExact K)
+    (hf : executeLine O qy idx true esf l = .ok (esf', lo)) (hb : executeLine O qy idx false esb l = .ok (esb', lob)) :
+    (∃ S', Sim2 q esf'.agg esb'.agg S' ∧ ∀ k ∈ S', k ∈ K) ∧
+    ((∃ out, lo.result = some out ∧ finalResult O q esb' = .ok out) ∨
+     (lo.result = none ∧ esf'.agg = esf.agg ∧ esb'.agg = esb.agg)) :=
+  line_sim hq hlim idx l h hS hK hex hf hb
 
-/-! ### negation witnesses of the two open findings of this property -/
+/-- **C11, aggregate half, at full strength: with or without a JOIN.** Follow side: the engine's answers for the lines
+fed one at a time with the default configuration (`feedLines`, what the `incr` driver runs:
+`Props.C06.incr_driver_is_feedLines`); batch side: the executed `runBatch` over the same lines as one file, the join (if
+any) loaded into `idx`. Hypotheses: no LIMIT; the feed does not fail; the batch run reports no failure; the GROUP BY keys
+seen (over all join partners) are exact — D60 is the only carve-out. Then for EVERY k the answer for the k-th line either
+carries a table, and printing it is exactly what the batch run over the first k lines prints (a line with several join
+partners included), or it carries none, and the batch run over the first k lines prints what the batch run over the
+first k−1 lines prints. -/
+theorem follow_join_kth_line_eq_batch_prefix {O : Oracles} {qy : Query} {q : AggStmt} (hq : qy.stmt = .aggregate q)
+    (hlim : q.limit = none) (joined : List FileLine) (idx : JoinIndex) (hidx : joinOutcome qy joined = .ok idx)
+    (pre : List Line) (l : Line) {esf : EngineState} {losf : List LineOut}
+    (hf : feedLines O qy idx true (pre ++ [l]) {} = (losf, .ok esf))
+    (hb : hasFailed (runBatch O qy joined [asFile (pre ++ [l])] none) = false)
+    (hex : KeysExact (lineKeys O qy q idx (pre ++ [l]))) :
+    ∃ lo, losf = (feedLines O qy idx true pre {}).1 ++ [lo] ∧
+      ((∃ out, lo.result = some out ∧
+          (runBatch O qy joined [asFile (pre ++ [l])] none).printed = printResult out true) ∨
+       (lo.result = none ∧
+          (runBatch O qy joined [asFile (pre ++ [l])] none).printed = (runBatch O qy joined [asFile pre] none).printed ∧
+          hasFailed (runBatch O qy joined [asFile pre] none) = false)) :=
+  follow_join_kth_line hq hlim joined idx hidx pre l hf hb hex
+
+/-! ### negation witness of the open finding of this property (D60), and the regression witness of the repaired D61 -/
 
 /-- **D60** (why "exact keys" cannot be dropped from `follow_eq_batch_prefix`): GROUP BY over the REAL keys `0.0` and
 `-0.0` (one group: they are equal in the value order). Rows (0.0, NULL, 1), (-0.0, 1, NULL), statement
@@ -331,13 +359,13 @@ theorem d60_follow_and_batch_show_different_key_representatives (p : Nat) :
     rw [aggResult_eq, pub_b]
     rfl
 
-/-- **D61**: follow mode, aggregate over a JOIN. `SELECT COUNT(*) FROM a INNER JOIN b ON a.k = b.k`, the joined file has two
-rows with key 1, one input line with key 1: the refresh for that line shows the rows `1` and `2` (one full table per join
-partner, concatenated), a batch run over the same line shows the one row `2`. The harness witness D61 shows the same on the
-implementation. -/
-theorem d61_follow_join_shows_a_table_per_partner :
+/-- **D61, repaired** (regression witness): follow mode, aggregate over a JOIN. `SELECT COUNT(*) FROM a INNER JOIN b ON
+a.k = b.k`, the joined file has two rows with key 1, one input line with key 1: the answer for that line carries ONE table
+with the one row `2` — the table a batch run over the same line shows. Before /repo 7277b4c it carried the rows `1` and
+`2` (one full table per join partner, concatenated). The harness witness D61 checks the same on the implementation. -/
+theorem d61_repaired_follow_join_shows_the_batch_table :
     (∃ es lo, executeLine {} d61Query d61Index true {} d61Line = .ok (es, lo) ∧
-      lo.result = some { columns := ["count0"], rows := [[.int 1], [.int 2]] }) ∧
+      lo.result = some { columns := ["count0"], rows := [[.int 2]] }) ∧
     (∃ es lo, executeLine {} d61Query d61Index false {} d61Line = .ok (es, lo) ∧
       finalResult {} exCountQ es = .ok { columns := ["count0"], rows := [[.int 2]] }) :=
   ⟨⟨_, _, rfl, rfl⟩, ⟨_, _, rfl, rfl⟩⟩
